@@ -9,7 +9,7 @@ from litedram.common import LiteDRAMNativePort
 from litedram.frontend.axi import LiteDRAMAXIPort, LiteDRAMAXI2Native
 
 from ..engine import Sim
-from ..agents import NativeMemSlave, Violations, word_of, init_byte, StreamDriver, StreamSink
+from ..agents import stuck, NativeMemSlave, Violations, word_of, init_byte, StreamDriver, StreamSink
 from .c07 import gen_pattern, gen_extra
 
 ID = "C09"
@@ -224,6 +224,8 @@ def run(scn):
     while cyc < cap:
         sim.step()
         cyc += 1
+        if not cyc & 63 and stuck(sim, cyc):
+            break       # no handshake anywhere for 20000 cycles: the run is stuck, do not spin to the cap
         done = aw_d.done() and w_d.done() and ar_d.done() and st["b"] >= len(writes) and st["r"] >= len(rbeats) and mem.idle()
         if done:
             quiet += 1
